@@ -76,7 +76,7 @@ def run_case(cls, key, seed, ctx):
         hostile, fam = False, "levels3"
     else:
         g, y, s, fam = TL.random_dataset(rng, kmax=4, nmax=30, max_levels=8)
-        constraint, objective, flip, gs = TL.config_schedule(int(rng.integers(0, 10 ** 6)))
+        constraint, objective, flip, gs = TL.config_random(rng)
         hostile = True
     wit = {"groups": g, "labels": y, "scores": s, "constraint": constraint, "objective": objective, "flip": flip, "grid_size": gs}
     dists = {tuple(sorted((s[i], y[i]) for i in range(len(g)) if g[i] == gv)) for gv in set(g)}
